@@ -166,7 +166,8 @@ Proof.
   unfold insert_output. destruct bs as [|c bs].
   - destruct (match out with None => _ | Some _ => _ end); [cbn; split; auto with noerr|].
     unfold set_root_output. destruct (b_stack b); cbn; split; auto with noerr.
-  - pose proof (noerr_fcp (b_stack b) (c :: bs) (match out with Some o => o | None => 0 end)) as Hf.
+  - destruct (_ && _); [cbn; split; auto with noerr|].
+    pose proof (noerr_fcp (b_stack b) (c :: bs) (match out with Some o => o | None => 0 end)) as Hf.
     destruct (fcp _ _ _) as [[[st p] o]|x|]; [| exfalso; eapply Hf; eauto | cbn; split; auto with noerr].
     destruct (Nat.eqb p _).
     { destruct (o =? 0); cbn; split; auto with noerr. }
@@ -494,107 +495,6 @@ Proof.
   - rewrite spec_calls_cons, E. constructor; auto.
   - rewrite (spec_call_err_last _ _ _ E). apply IH.
   - exfalso. eapply spec_call_no_panic; eauto.
-Qed.
-
-(* ================= C15: the front ends mean the same thing ================= *)
-(* the root is not final before the first accepted key *)
-Definition root_fresh (b : builder) : Prop :=
-  b_last b = None -> match b_stack b with r :: _ => n_final (u_node r) = false | [] => True end.
-
-Lemma root_fresh_new ty rows cols : root_fresh (new_builder ty rows cols).
-Proof. intros _. reflexivity. Qed.
-
-Lemma root_fresh_apply b o : root_fresh b -> root_fresh (fst (apply_op b o)).
-Proof.
-  intros H. pose proof (apply_op_spec b o) as H1. pose proof (apply_op_last b o) as HL.
-  destruct (snd (spec_call (b_last b) o)); [| |tauto].
-  - intros E. rewrite HL, (proj2 H1) in E. discriminate.
-  - destruct H1 as (-> & _). exact H.
-Qed.
-
-Lemma root_fresh_calls ops : forall b, root_fresh b -> root_fresh (fst (run_calls b ops)).
-Proof.
-  induction ops as [|o r IH]; intros b H; [exact H|].
-  rewrite run_calls_cons. cbn [fst]. apply IH, root_fresh_apply, H.
-Qed.
-
-(* add(k) = insert(k, 0) unless k repeats the last key (then insert reports DuplicateKey).
-   The unrestricted statement is false for the empty key on a state no call sequence reaches
-   (see [add_eq_insert0_needs_fresh_root] in Properties/C15.v), hence [root_fresh]. *)
-Theorem add_eq_insert0_gen b k :
-  b_last b <> Some k -> (k = [] -> root_fresh b) -> b_add b k = b_insert b k 0.
-Proof.
-  intros Hk Hr. unfold b_add, b_insert, check_last_key.
-  destruct (b_last b) as [l|] eqn:E.
-  - cbn [andb]. destruct (key_eqb k l) eqn:Ek; [apply key_eqb_eq in Ek; congruence|].
-    destruct (key_ltb k l) eqn:L; [reflexivity|].
-    destruct k as [|c k]; [|reflexivity].
-    (* [] is not below l and differs from it: impossible *)
-    destruct l; [congruence|]. discriminate L.
-  - destruct k as [|c k]; [|reflexivity].
-    specialize (Hr eq_refl E). unfold insert_output. cbn [with_last b_stack].
-    destruct (b_stack b) as [|r rest]; [reflexivity|]. rewrite Hr. reflexivity.
-Qed.
-
-Theorem add_eq_insert0 ty rows cols ops k :
-  let b := fst (run_calls (new_builder ty rows cols) ops) in
-  b_last b <> Some k -> b_add b k = b_insert b k 0.
-Proof.
-  intros b H. apply add_eq_insert0_gen; auto. intros _.
-  apply root_fresh_calls, root_fresh_new.
-Qed.
-
-Theorem build_set_eq summer ty rows cols ks :
-  build_set summer ty rows cols ks = build_ops summer ty rows cols (map OpAdd ks).
-Proof. reflexivity. Qed.
-Theorem build_map_eq summer ty rows cols kvs :
-  build_map summer ty rows cols kvs = build_ops summer ty rows cols (map (fun '(k, v) => OpInsert k v) kvs).
-Proof. reflexivity. Qed.
-
-(* single calls that all succeed, then finish = from_iter / extend_iter / extend_stream *)
-Theorem calls_then_finish_eq_build summer ty rows cols ops :
-  Forall (fun r => r = Ok tt) (snd (run_calls (new_builder ty rows cols) ops)) ->
-  b_finish summer (fst (run_calls (new_builder ty rows cols) ops)) = build_ops summer ty rows cols ops.
-Proof. intros H. unfold build_ops. now rewrite (calls_eq_extend _ _ H). Qed.
-
-(* extending in several pieces = extending once *)
-Theorem extend_app ops1 : forall b ops2,
-  snd (run_extend b ops1) = Ok tt ->
-  run_extend b (ops1 ++ ops2) = run_extend (fst (run_extend b ops1)) ops2.
-Proof.
-  induction ops1 as [|o r IH]; intros b ops2; [reflexivity|].
-  cbn [app run_extend]. destruct (apply_op b o) as [b1 [[]| |]]; cbn [snd]; try discriminate. apply IH.
-Qed.
-
-(* a set built from strictly increasing keys = the map with all values 0 *)
-Lemma extend_add_eq_insert0 ks : forall b,
-  root_fresh b -> (forall k, hd_error ks = Some k -> b_last b <> Some k) -> sorted_strict ks = true ->
-  run_extend b (map OpAdd ks) = run_extend b (map (fun k => OpInsert k 0) ks).
-Proof.
-  induction ks as [|k ks IH]; intros b Hr Hh Hs; [reflexivity|].
-  cbn [map run_extend apply_op]. rewrite (add_eq_insert0_gen b k); auto.
-  pose proof (apply_op_last b (OpInsert k 0)) as HL. pose proof (apply_op_spec b (OpInsert k 0)) as HS.
-  pose proof (root_fresh_apply b (OpInsert k 0) Hr) as Hr'.
-  cbn [apply_op] in *. destruct (b_insert b k 0) as [b1 x]. cbn [fst snd] in *.
-  destruct x; auto. apply IH; auto.
-  - intros k' Hk'. destruct ks as [|k2 ks]; [discriminate|]. injection Hk' as <-.
-    rewrite HL. destruct (snd (spec_call (b_last b) (OpInsert k 0))); [| |tauto].
-    + rewrite (proj2 HS). cbn [op_key]. intros [= E2]. rewrite E2 in Hs.
-      change (sorted_strict (k2 :: k2 :: ks)) with (key_ltb k2 k2 && sorted_strict (k2 :: ks)) in Hs.
-      rewrite key_ltb_irrefl in Hs. discriminate.
-    + destruct HS as (HS & _). discriminate.
-  - destruct ks; [reflexivity|].
-    change (sorted_strict (k :: k0 :: ks)) with (key_ltb k k0 && sorted_strict (k0 :: ks)) in Hs.
-    apply andb_true_iff in Hs. tauto.
-Qed.
-
-Theorem build_set_eq_map0 summer ty rows cols ks :
-  sorted_strict ks = true ->
-  build_set summer ty rows cols ks = build_map summer ty rows cols (map (fun k => (k, 0)) ks).
-Proof.
-  intros Hs. unfold build_set, build_map, build_ops. rewrite map_map.
-  rewrite (extend_add_eq_insert0 ks (new_builder ty rows cols)); auto using root_fresh_new.
-  intros k _. rewrite new_builder_last. discriminate.
 Qed.
 
 (* ================= C12 (a): the node cache ================= *)
@@ -1077,6 +977,16 @@ Proof.
       destruct Hq as [-> _]. reflexivity.
 Qed.
 
+Lemma fcp0_lcp bs : forall st q, stack_inputs st = map Some q ++ [None] -> fcp0 st bs = lcp q bs.
+Proof.
+  induction bs as [|c bs IH]; intros st q Hq.
+  - destruct st; destruct q; reflexivity.
+  - apply inputs_nil_key in Hq. destruct st as [|u rest]; [contradiction|]. cbn [fcp0].
+    destruct (u_last u) as [[i o]|].
+    + destruct Hq as (q' & -> & Hq'). cbn [lcp]. destruct (i =? c); [|reflexivity]. f_equal. now apply IH.
+    + destruct Hq as [-> _]. reflexivity.
+Qed.
+
 Lemma suffix_nodes_facts r :
   length (suffix_nodes r) = S (length r) /\ stack_inputs (suffix_nodes r) = map Some r ++ [None].
 Proof.
@@ -1096,6 +1006,8 @@ Definition insert_output_log (b : builder) (bs : key) (out : option N) : list (N
   match bs with
   | [] => []
   | _ =>
+    if (match out with None => true | Some _ => false end) && Nat.eqb (fcp0 (b_stack b) bs) (length bs)
+    then [] else
     match fcp (b_stack b) bs (match out with Some o => o | None => 0 end) with
     | Ok (st, p, o) =>
       if Nat.eqb p (length bs) then []
@@ -1127,7 +1039,12 @@ Proof.
       injection H as <- _. cbn [with_len with_stack b_stack length app].
       split; [exact Hq|]. split; [unfold writes; cbn; lia|]. split; [cbn [length]; lia|].
       intros S HS. eapply ginv_same; eauto.
-  - set (o0 := match out with Some o => o | None => 0 end).
+  - destruct ((match out with None => true | Some _ => false end) &&
+              Nat.eqb (fcp0 (b_stack b) (c :: bs)) (length (c :: bs))) eqn:Edup.
+    { intros H Hq K. injection H as <- _. apply andb_true_iff in Edup as [_ Edup].
+      apply Nat.eqb_eq in Edup. rewrite (fcp0_lcp _ _ _ Hq) in Edup. apply lcp_full in Edup; auto. subst q.
+      cbn [app length]. split; [exact Hq|]. split; [cbn; lia|]. split; [lia|]. auto. }
+    set (o0 := match out with Some o => o | None => 0 end).
     destruct (fcp (b_stack b) (c :: bs) o0) as [[[st p] o]| |] eqn:E; [|discriminate|discriminate].
     destruct (fcp_ok _ _ _ _ _ _ E) as (Fl & Fi & Fp). intros H Hq K. specialize (Fp q Hq). subst p.
     destruct (lcp_facts q (c :: bs)) as (P1 & P2 & P3).
@@ -1488,3 +1405,150 @@ Proof.
   intros Hg H Hev Hin. pose proof (cache_exact_run _ _ _ _ _ Hg H Hev) as HI.
   destruct (no_evict_complete _ _ _ _ HI Hin) as (r' & E & _). eauto.
 Qed.
+
+(* ================= C15: the front ends mean the same thing ================= *)
+(* the root is not final before the first accepted key *)
+Definition root_fresh (b : builder) : Prop :=
+  b_last b = None -> match b_stack b with r :: _ => n_final (u_node r) = false | [] => True end.
+
+Lemma root_fresh_new ty rows cols : root_fresh (new_builder ty rows cols).
+Proof. intros _. reflexivity. Qed.
+
+Lemma root_fresh_apply b o : root_fresh b -> root_fresh (fst (apply_op b o)).
+Proof.
+  intros H. pose proof (apply_op_spec b o) as H1. pose proof (apply_op_last b o) as HL.
+  destruct (snd (spec_call (b_last b) o)); [| |tauto].
+  - intros E. rewrite HL, (proj2 H1) in E. discriminate.
+  - destruct H1 as (-> & _). exact H.
+Qed.
+
+Lemma root_fresh_calls ops : forall b, root_fresh b -> root_fresh (fst (run_calls b ops)).
+Proof.
+  induction ops as [|o r IH]; intros b H; [exact H|].
+  rewrite run_calls_cons. cbn [fst]. apply IH, root_fresh_apply, H.
+Qed.
+
+(* the unfinished stack spells the last key after any calls that did not panic *)
+Lemma stack_ok_new ty rows cols : stack_ok (new_builder ty rows cols).
+Proof. reflexivity. Qed.
+
+Lemma stack_ok_apply b o : stack_ok b -> snd (apply_op b o) <> Panic -> stack_ok (fst (apply_op b o)).
+Proof.
+  intros Hs Hp. destruct (apply_op b o) as [b1 x] eqn:E. cbn [fst snd] in *. destruct x as [u|e|]; [| |congruence].
+  - apply (apply_op_ok _ _ _ _ E Hs).
+  - destruct (reject_state_identity _ _ _ _ E) as [-> _]. exact Hs.
+Qed.
+
+Lemma stack_ok_calls ops : forall b, stack_ok b ->
+  Forall (fun r => r <> Panic) (snd (run_calls b ops)) -> stack_ok (fst (run_calls b ops)).
+Proof.
+  induction ops as [|o r IH]; intros b Hs HF; [exact Hs|].
+  rewrite run_calls_cons in *. cbn [fst snd] in *. inversion HF; subst. apply IH; auto.
+  apply stack_ok_apply; auto.
+Qed.
+
+(* when the stack spells the last key, a key that passes the ordering check and is not the last
+   key does not match the whole stack path: the duplicate early-return of `add` is not taken *)
+Lemma fcp0_not_full b k :
+  stack_ok b -> kle (last_key b) k -> last_key b <> k -> fcp0 (b_stack b) k <> length k.
+Proof.
+  intros Hs K Hn E. rewrite (fcp0_lcp _ _ _ Hs) in E. apply lcp_full in E; auto.
+Qed.
+
+(* add(k) = insert(k, 0) unless k repeats the last key (then insert reports DuplicateKey, and add
+   returns early without touching any output).  The unrestricted statement is false on states no
+   call sequence reaches (see [add_eq_insert0_needs_fresh_root] and
+   [add_eq_insert0_needs_stack_ok] in Properties/C15.v), hence [root_fresh] and [stack_ok]. *)
+Theorem add_eq_insert0_gen b k :
+  b_last b <> Some k -> (k = [] -> root_fresh b) -> (k <> [] -> stack_ok b) -> b_add b k = b_insert b k 0.
+Proof.
+  intros Hk Hr Hs. unfold b_add, b_insert, check_last_key.
+  destruct (b_last b) as [l|] eqn:E.
+  - cbn [andb]. destruct (key_eqb k l) eqn:Ek; [apply key_eqb_eq in Ek; congruence|].
+    destruct (key_ltb k l) eqn:L; [reflexivity|].
+    destruct k as [|c k].
+    { (* [] is not below l and differs from it: impossible *)
+      destruct l; [congruence|]. discriminate L. }
+    unfold insert_output. cbn [with_last b_stack andb].
+    assert (Hf : fcp0 (b_stack b) (c :: k) <> length (c :: k)).
+    { apply fcp0_not_full; [apply Hs; discriminate| |]; unfold last_key; rewrite E.
+      - now apply key_ltb_false_kle.
+      - congruence. }
+    apply Nat.eqb_neq in Hf. rewrite Hf. reflexivity.
+  - destruct k as [|c k].
+    + specialize (Hr eq_refl E). unfold insert_output. cbn [with_last b_stack].
+      destruct (b_stack b) as [|r rest]; [reflexivity|]. rewrite Hr. reflexivity.
+    + unfold insert_output. cbn [with_last b_stack andb].
+      assert (Hf : fcp0 (b_stack b) (c :: k) <> length (c :: k)).
+      { apply fcp0_not_full; [apply Hs; discriminate| |]; unfold last_key; rewrite E.
+        - apply kle_nil.
+        - discriminate. }
+      apply Nat.eqb_neq in Hf. rewrite Hf. reflexivity.
+Qed.
+
+Theorem add_eq_insert0 ty rows cols ops k :
+  let b := fst (run_calls (new_builder ty rows cols) ops) in
+  Forall (fun r => r <> Panic) (snd (run_calls (new_builder ty rows cols) ops)) ->
+  b_last b <> Some k -> b_add b k = b_insert b k 0.
+Proof.
+  intros b HF H. apply add_eq_insert0_gen; auto.
+  - intros _. apply root_fresh_calls, root_fresh_new.
+  - intros _. apply stack_ok_calls; auto. apply stack_ok_new.
+Qed.
+
+Theorem build_set_eq summer ty rows cols ks :
+  build_set summer ty rows cols ks = build_ops summer ty rows cols (map OpAdd ks).
+Proof. reflexivity. Qed.
+Theorem build_map_eq summer ty rows cols kvs :
+  build_map summer ty rows cols kvs = build_ops summer ty rows cols (map (fun '(k, v) => OpInsert k v) kvs).
+Proof. reflexivity. Qed.
+
+(* single calls that all succeed, then finish = from_iter / extend_iter / extend_stream *)
+Theorem calls_then_finish_eq_build summer ty rows cols ops :
+  Forall (fun r => r = Ok tt) (snd (run_calls (new_builder ty rows cols) ops)) ->
+  b_finish summer (fst (run_calls (new_builder ty rows cols) ops)) = build_ops summer ty rows cols ops.
+Proof. intros H. unfold build_ops. now rewrite (calls_eq_extend _ _ H). Qed.
+
+(* extending in several pieces = extending once *)
+Theorem extend_app ops1 : forall b ops2,
+  snd (run_extend b ops1) = Ok tt ->
+  run_extend b (ops1 ++ ops2) = run_extend (fst (run_extend b ops1)) ops2.
+Proof.
+  induction ops1 as [|o r IH]; intros b ops2; [reflexivity|].
+  cbn [app run_extend]. destruct (apply_op b o) as [b1 [[]| |]]; cbn [snd]; try discriminate. apply IH.
+Qed.
+
+(* a set built from strictly increasing keys = the map with all values 0 *)
+Lemma extend_add_eq_insert0 ks : forall b,
+  root_fresh b -> stack_ok b ->
+  (forall k, hd_error ks = Some k -> b_last b <> Some k) -> sorted_strict ks = true ->
+  run_extend b (map OpAdd ks) = run_extend b (map (fun k => OpInsert k 0) ks).
+Proof.
+  induction ks as [|k ks IH]; intros b Hr Hso Hh Hs; [reflexivity|].
+  cbn [map run_extend apply_op]. rewrite (add_eq_insert0_gen b k); auto.
+  pose proof (apply_op_last b (OpInsert k 0)) as HL. pose proof (apply_op_spec b (OpInsert k 0)) as HS.
+  pose proof (root_fresh_apply b (OpInsert k 0) Hr) as Hr'.
+  pose proof (stack_ok_apply b (OpInsert k 0) Hso) as Hso'.
+  cbn [apply_op] in *. destruct (b_insert b k 0) as [b1 x]. cbn [fst snd] in *.
+  destruct x; auto. apply IH; auto.
+  - apply Hso'. discriminate.
+  - intros k' Hk'. destruct ks as [|k2 ks]; [discriminate|]. injection Hk' as <-.
+    rewrite HL. destruct (snd (spec_call (b_last b) (OpInsert k 0))); [| |tauto].
+    + rewrite (proj2 HS). cbn [op_key]. intros [= E2]. rewrite E2 in Hs.
+      change (sorted_strict (k2 :: k2 :: ks)) with (key_ltb k2 k2 && sorted_strict (k2 :: ks)) in Hs.
+      rewrite key_ltb_irrefl in Hs. discriminate.
+    + destruct HS as (HS & _). discriminate.
+  - destruct ks; [reflexivity|].
+    change (sorted_strict (k :: k0 :: ks)) with (key_ltb k k0 && sorted_strict (k0 :: ks)) in Hs.
+    apply andb_true_iff in Hs. tauto.
+Qed.
+
+Theorem build_set_eq_map0 summer ty rows cols ks :
+  sorted_strict ks = true ->
+  build_set summer ty rows cols ks = build_map summer ty rows cols (map (fun k => (k, 0)) ks).
+Proof.
+  intros Hs. unfold build_set, build_map, build_ops. rewrite map_map.
+  rewrite (extend_add_eq_insert0 ks (new_builder ty rows cols)); auto using root_fresh_new, stack_ok_new.
+  intros k _. rewrite new_builder_last. discriminate.
+Qed.
+
